@@ -17,6 +17,10 @@ package main
 //                                                     'new (NewHashmap(E) with the slices in that order) | 'new2 (two
 //                                                     objects from the SAME slices); steps ('marshal i) ('items i)
 //                                                     ('get i k) ('put i k v) -> (result ...)
+//   c05.dec    (n hashmapE cfg vtype cell libs)     decode under a Decoder configuration (plain | new | lib | zlib | debug)
+//                                                     a dictionary whose values are Uint32 | Ref[Uint32] | Ref[boc.Cell];
+//                                                     references may be library cells ('x n2 bits) resolved through
+//                                                     libs = ((libbits target)...) or pruned branches ('x n1 bits)
 //   c05.addr   (((wc addr value)...))                 AddressWithWorkchain keys given as values: Put, Marshal,
 //                                                     Unmarshal -> (cell ((wc addr value)...)) | 'err
 // A cell tree is (b<bits> (child ...)).  Keys are printed as their bits,
@@ -170,8 +174,48 @@ func c05Reg[K c05Key](signed bool) {
 			keys    func() []K
 			values  func() []tlb.Uint32
 			marshal func() (*boc.Cell, error)
+			decode  func(c *boc.Cell) error
+		}
+		field := build == "fput" || build == "fnew"
+		if field {
+			build = build[1:]
 		}
 		mk := func(keys []K, values []tlb.Uint32) obj {
+			if field && e {
+				// the object is a struct field that is decoded into again and again
+				var s struct {
+					D tlb.HashmapE[K, tlb.Uint32]
+				}
+				s.D = tlb.NewHashmapE(keys, values)
+				return obj{
+					put:    func(k K, v tlb.Uint32) { s.D.Put(k, v) },
+					get:    func(k K) (tlb.Uint32, bool) { return s.D.Get(k) },
+					items:  func() []tlb.HashmapItem[K, tlb.Uint32] { return s.D.Items() },
+					keys:   func() []K { return s.D.Keys() },
+					values: func() []tlb.Uint32 { return s.D.Values() },
+					marshal: func() (*boc.Cell, error) {
+						c := boc.NewCell()
+						return c, tlb.Marshal(c, s)
+					},
+					decode: func(c *boc.Cell) error { return tlb.Unmarshal(c, &s) }}
+			}
+			if field {
+				var s struct {
+					D tlb.Hashmap[K, tlb.Uint32]
+				}
+				s.D = tlb.NewHashmap(keys, values)
+				return obj{
+					put:    func(k K, v tlb.Uint32) { s.D.Put(k, v) },
+					get:    func(k K) (tlb.Uint32, bool) { return s.D.Get(k) },
+					items:  func() []tlb.HashmapItem[K, tlb.Uint32] { return s.D.Items() },
+					keys:   func() []K { return s.D.Keys() },
+					values: func() []tlb.Uint32 { return s.D.Values() },
+					marshal: func() (*boc.Cell, error) {
+						c := boc.NewCell()
+						return c, tlb.Marshal(c, s)
+					},
+					decode: func(c *boc.Cell) error { return tlb.Unmarshal(c, &s) }}
+			}
 			if e {
 				h := tlb.NewHashmapE(keys, values)
 				// closures, not method values: a method value of a value-receiver method
@@ -185,7 +229,8 @@ func c05Reg[K c05Key](signed bool) {
 					marshal: func() (*boc.Cell, error) {
 						c := boc.NewCell()
 						return c, tlb.Marshal(c, h) // by value, as a field of a struct would be
-					}}
+					},
+					decode: func(c *boc.Cell) error { return tlb.NewDecoder().Unmarshal(c, &h) }}
 			}
 			h := tlb.NewHashmap(keys, values)
 			return obj{
@@ -197,7 +242,8 @@ func c05Reg[K c05Key](signed bool) {
 				marshal: func() (*boc.Cell, error) {
 					c := boc.NewCell()
 					return c, tlb.Marshal(c, h) // by value, as a field of a struct would be
-				}}
+				},
+				decode: func(c *boc.Cell) error { return tlb.NewDecoder().Unmarshal(c, &h) }}
 		}
 		var objs []obj
 		switch build {
@@ -263,6 +309,20 @@ func c05Reg[K c05Key](signed bool) {
 					out = append(out, sx.L(sx.N(uint64(v))))
 				} else {
 					out = append(out, sx.A("none"))
+				}
+			case st.Head() == "decode" && len(st.List) == 3:
+				pc, ok := c05CellOfSx(st.List[2])
+				if !ok {
+					return sx.L(sx.A("harness-error"), sx.A("cell"))
+				}
+				bc, err := pc.toBoc()
+				if err != nil {
+					return sx.L(sx.A("harness-error"), sx.A("cell-build"))
+				}
+				if err := o.decode(bc); err != nil {
+					out = append(out, sx.A("err"))
+				} else {
+					out = append(out, sx.A("ok"))
 				}
 			case st.Head() == "put" && len(st.List) == 4:
 				k, err := c05KeyFromBits[K](st.List[2].Bits)
@@ -373,6 +433,7 @@ func init() {
 	execs["c05.encode"] = execC05Encode
 	execs["c05.raw"] = execC05Raw
 	execs["c05.hist"] = execC05Hist
+	execs["c05.dec"] = execC05Dec
 	execs["c05.decode"] = execC05Decode
 	execs["c05.cells"] = execC05Cells
 	execs["c05.ops"] = execC05Ops
@@ -383,6 +444,9 @@ func init() {
 // ---- canonical forms -------------------------------------------------------
 
 func c05CellSx(c *boc.Cell) sx.V {
+	if c.IsExotic() {
+		return sx.L(sx.A("x"), sx.Nat(int(c.CellType())), sx.Bits(c05CellBits(c)))
+	}
 	var refs []sx.V
 	for _, r := range c.Refs() {
 		refs = append(refs, c05CellSx(r))
@@ -410,9 +474,13 @@ func c05KVsOf(v sx.V) []c05KV {
 type c05Cell struct {
 	bits string
 	refs []*c05Cell
+	exo  int // 0 ordinary, 1 pruned branch, 2 library cell
 }
 
 func (c *c05Cell) sx() sx.V {
+	if c.exo > 0 {
+		return sx.L(sx.A("x"), sx.Nat(c.exo), sx.Bits(c.bits))
+	}
 	var refs []sx.V
 	for _, r := range c.refs {
 		refs = append(refs, r.sx())
@@ -421,6 +489,9 @@ func (c *c05Cell) sx() sx.V {
 }
 
 func c05CellOfSx(v sx.V) (*c05Cell, bool) {
+	if v.K == sx.KL && len(v.List) == 3 && v.List[0].IsA("x") && v.List[1].K == sx.KN && v.List[2].K == sx.KBits {
+		return &c05Cell{bits: v.List[2].Bits, exo: v.List[1].I()}, true
+	}
 	if v.K != sx.KL || len(v.List) != 2 || v.List[0].K != sx.KBits || v.List[1].K != sx.KL {
 		return nil, false
 	}
@@ -437,6 +508,9 @@ func c05CellOfSx(v sx.V) (*c05Cell, bool) {
 
 func (c *c05Cell) toBoc() (*boc.Cell, error) {
 	out := boc.NewCell()
+	if c.exo > 0 {
+		out = boc.NewCellExotic(boc.CellType(c.exo))
+	}
 	for i := 0; i < len(c.bits); i++ {
 		if err := out.WriteBit(c.bits[i] == '1'); err != nil {
 			return nil, err
@@ -486,6 +560,150 @@ func execC05Hist(in sx.V) sx.V {
 		return sx.L(sx.A("harness-error"), sx.A("keytype"))
 	}
 	return im.hist(in.List[2].Bool, in.List[3].Atom, c05KVsOf(in.List[4]), in.List[5].List)
+}
+
+// a Decoder of the named configuration; libs maps the representation hash of a
+// library cell to the cell it stands for
+func c05Decoder(cfg string, libs map[tlb.Bits256]*boc.Cell) func(c *boc.Cell, o any) error {
+	resolver := func(hash tlb.Bits256) (*boc.Cell, error) {
+		t, ok := libs[hash]
+		if !ok {
+			return nil, fmt.Errorf("unknown library")
+		}
+		t.ResetCounters()
+		return t, nil
+	}
+	switch cfg {
+	case "plain":
+		return tlb.Unmarshal
+	case "new":
+		return tlb.NewDecoder().Unmarshal
+	case "lib":
+		return tlb.NewDecoder().WithLibraryResolver(resolver).Unmarshal
+	case "zlib": // no hasher
+		return (&tlb.Decoder{}).WithLibraryResolver(resolver).Unmarshal
+	default: // "debug"
+		return tlb.NewDecoder().WithDebug().WithLibraryResolver(resolver).Unmarshal
+	}
+}
+
+func c05LibsOfSx(v sx.V) (map[tlb.Bits256]*boc.Cell, bool) {
+	libs := map[tlb.Bits256]*boc.Cell{}
+	for _, x := range v.List {
+		if x.K != sx.KL || len(x.List) != 2 || x.List[0].K != sx.KBits {
+			return nil, false
+		}
+		lc, err := (&c05Cell{bits: x.List[0].Bits, exo: 2}).toBoc()
+		if err != nil {
+			return nil, false
+		}
+		h, err := lc.Hash256()
+		if err != nil {
+			return nil, false
+		}
+		tc, ok := c05CellOfSx(x.List[1])
+		if !ok {
+			return nil, false
+		}
+		t, err := tc.toBoc()
+		if err != nil {
+			return nil, false
+		}
+		libs[tlb.Bits256(h)] = t
+	}
+	return libs, true
+}
+
+// value of a decoded leaf, printed: Uint32 / Ref[Uint32] as a number, Ref[boc.Cell] as a cell
+func c05DecValues[K c05Key, T any](e bool, dec func(c *boc.Cell, o any) error, c *boc.Cell, show func(T) sx.V) sx.V {
+	var items []tlb.HashmapItem[K, T]
+	if e {
+		var h tlb.HashmapE[K, T]
+		if err := dec(c, &h); err != nil {
+			return sx.A("err")
+		}
+		items = h.Items()
+	} else {
+		var h tlb.Hashmap[K, T]
+		if err := dec(c, &h); err != nil {
+			return sx.A("err")
+		}
+		items = h.Items()
+	}
+	var out []sx.V
+	for _, it := range items {
+		kb, err := c05KeyBits(it.Key)
+		if err != nil {
+			return sx.A("err")
+		}
+		out = append(out, sx.L(sx.Bits(kb), show(it.Value)))
+	}
+	return sx.L(out...)
+}
+
+func c05DecRun[K c05Key](e bool, cfg, vt string, c *boc.Cell, libs map[tlb.Bits256]*boc.Cell) sx.V {
+	dec := c05Decoder(cfg, libs)
+	switch vt {
+	case "u32":
+		return c05DecValues[K, tlb.Uint32](e, dec, c, func(v tlb.Uint32) sx.V { return sx.N(uint64(v)) })
+	case "ref":
+		return c05DecValues[K, tlb.Ref[tlb.Uint32]](e, dec, c, func(v tlb.Ref[tlb.Uint32]) sx.V { return sx.N(uint64(v.Value)) })
+	default:
+		return c05DecValues[K, tlb.Ref[boc.Cell]](e, dec, c, func(v tlb.Ref[boc.Cell]) sx.V { return c05CellSx(&v.Value) })
+	}
+}
+
+// the same value decoded OUTSIDE a dictionary: holder = the value part of a leaf
+func c05DecOutside(cfg, vt string, holder *boc.Cell, libs map[tlb.Bits256]*boc.Cell) sx.V {
+	dec := c05Decoder(cfg, libs)
+	switch vt {
+	case "u32":
+		var v tlb.Uint32
+		if err := dec(holder, &v); err != nil {
+			return sx.A("err")
+		}
+		return sx.N(uint64(v))
+	case "ref":
+		var v tlb.Ref[tlb.Uint32]
+		if err := dec(holder, &v); err != nil {
+			return sx.A("err")
+		}
+		return sx.N(uint64(v.Value))
+	default:
+		var v tlb.Ref[boc.Cell]
+		if err := dec(holder, &v); err != nil {
+			return sx.A("err")
+		}
+		return c05CellSx(&v.Value)
+	}
+}
+
+var c05DecImpls = map[int]func(e bool, cfg, vt string, c *boc.Cell, libs map[tlb.Bits256]*boc.Cell) sx.V{
+	8:   c05DecRun[tlb.Uint8],
+	16:  c05DecRun[tlb.Uint16],
+	32:  c05DecRun[tlb.Uint32],
+	64:  c05DecRun[tlb.Uint64],
+	256: c05DecRun[tlb.Bits256],
+}
+
+func execC05Dec(in sx.V) sx.V {
+	f, ok := c05DecImpls[in.List[0].I()]
+	if !ok {
+		return sx.L(sx.A("harness-error"), sx.A("keytype"))
+	}
+	pc, ok := c05CellOfSx(in.List[4])
+	if !ok {
+		return sx.L(sx.A("harness-error"), sx.A("cell"))
+	}
+	bc, err := pc.toBoc()
+	if err != nil {
+		return sx.L(sx.A("harness-error"), sx.A("cell-build"))
+	}
+	libs, ok := c05LibsOfSx(in.List[5])
+	if !ok {
+		return sx.L(sx.A("harness-error"), sx.A("libs"))
+	}
+	return f(in.List[1].Bool, in.List[2].Atom, in.List[3].Atom, bc, libs)
 }
 
 func execC05Decode(in sx.V) sx.V {
@@ -563,6 +781,10 @@ type c05Tree struct {
 	label string
 	value uint32
 	l, r  *c05Tree
+	// raw leaf: the value part is given as bits and references (c05.dec)
+	raw   bool
+	vbits string
+	vrefs []*c05Cell
 }
 
 func (t *c05Tree) sx() sx.V {
@@ -626,6 +848,10 @@ func c05Label(form string, m int, label string) string {
 }
 
 func (t *c05Tree) cells(m int) (*c05Cell, bool) {
+	if t.leaf && t.raw {
+		b := c05Label(t.form, m, t.label) + t.vbits
+		return &c05Cell{bits: b, refs: t.vrefs}, len(b) <= 1023
+	}
 	if t.leaf {
 		b := c05Label(t.form, m, t.label) + c05Bin(int(t.value>>16), 16) + c05Bin(int(t.value&0xffff), 16)
 		return &c05Cell{bits: b}, len(b) <= 1023
@@ -730,4 +956,14 @@ func (t *c05Tree) chooseForms(r *prng.R, mode string) {
 		t.l.chooseForms(r, mode)
 		t.r.chooseForms(r, mode)
 	}
+}
+
+// leaves of a tree in key order
+func (t *c05Tree) leaves(out *[]*c05Tree) {
+	if t.leaf {
+		*out = append(*out, t)
+		return
+	}
+	t.l.leaves(out)
+	t.r.leaves(out)
 }
